@@ -134,6 +134,41 @@ def rule_register(ck, facts):
     ck.floor(R, "member_registering_arms", n, 2)
 
 
+
+def rule_last_definition_wins(ck, facts, R="C17.register"):
+    """a redefinition replaces the visibility and module context of the earlier definition"""
+    from ..cfg import DefIndex
+
+    ck.rule(R, "last-wins: a module may define a name twice and references bind to the later definition (the flattened let-chain shadows); the flattener's writes to the per-name tables of ModuleInfo (visibility_map, module_context_map) are therefore plain overwriting `insert`s — an `entry(..).or_insert*` / `try_insert`, which keeps the record of the first definition, lets the privacy check answer for another definition than the one the reference reaches")
+    lang = facts.crate(roles.LANG)
+    n = 0
+    for f in lang.fns:
+        if "::ast::program::" not in f.path or f.kind == "promoted" or "::test" in f.path:
+            continue
+        di = DefIndex(f)
+        for b, t in f.calls():
+            if not t[5] or t[5][0][0] not in ("cp", "mv"):
+                continue
+            r = di.resolve(t[5][0])
+            if r[0] != "rv" or r[1][5][0] != "ref":
+                continue
+            flds = [x for x in place_fields(r[1][5][1]) if x and (x.endswith("ModuleInfo::visibility_map") or x.endswith("ModuleInfo::module_context_map"))]
+            if not flds:
+                continue
+            m = (callee(t) or "").split("::")[-1]
+            if m not in ("insert", "entry", "try_insert", "extend", "raw_entry_mut", "get_or_insert_with"):
+                continue
+            n += 1
+            fld = flds[0].split("::")[-1]
+            owner = f.root.split("::", 1)[1] if "::" in f.root else f.root
+            key = "last-wins|%s|%s" % (owner, fld)
+            if m in ("insert", "extend"):
+                ck.ok(R, key, {"table": fld, "write": m})
+            else:
+                ck.bad(R, key, "%s records a name in %s through `%s`, which keeps what an earlier definition of the same name recorded: with `pub fn f` followed by a private `fn f` in one module every reference reaches the second definition while the privacy check still answers `public`" % (f.short, fld, m), f.where(t))
+    ck.floor(R, "per_name_table_writes", n, 4)
+
+
 def rule_routes(ck, facts):
     R = "C17.routes"
     ck.rule(R, "every resolver function that resolves through resolve_alias_chain / resolve_through_wildcards / resolve_qualified_path (or implements the wildcard search) reads visibility_map and either constructs Error::PrivateMemberAccess or branches on the public flag")
@@ -598,9 +633,14 @@ def rule_context_bracket(ck, facts, R="C17.context"):
 
 
 def run(ck, facts, tier):
+    from ..rules import patcover
+
+    # local bindings shadow imported names: the resolver must know every variable a match arm binds
+    patcover.run_match_patterns(ck, facts, "C17.binders", roles.LANG)
     rule_alias_export(ck, facts)
     rule_hierarchy_predicate(ck, facts)
     rule_register(ck, facts)
+    rule_last_definition_wins(ck, facts)
     rule_routes(ck, facts)
     rule_scope(ck, facts)
     rule_lexical_first(ck, facts)
